@@ -79,6 +79,12 @@ def contract_unit(spec):
             e['reason'] = r.get('reason')
         if r['status'] == 'failed' and o.expect == 'valid':
             inputs = None
+            if o.info.get('static_witness') is not None:
+                e['confirmed'] = True
+                e['witness'] = {'inputs': o.info['static_witness'],
+                                'detail': 'computed on the real compiler output for this schema'}
+                out['obligations'].append(e)
+                continue
             if r.get('model_text'):
                 try:
                     tm = TextModel(r['query_text'], r['model_text'])
